@@ -264,6 +264,14 @@ fn conn_history(seed: u64, idx: usize, thorough: bool, out: &mut impl Write) {
                     c.s.spawn(0, h, true, &[CVal::new(Ty::A, 5)], None);
                 }
             }
+            4 => {
+                // a join attempt that ends without ever connecting (refused / timed out / abandoned at renet level)
+                let cl = rng.range(1, nclients as usize) as u32;
+                let connecting = c.s.peers[cl as usize].app.world().get_resource::<bevy_renet::renet::RenetClient>().map(|r| r.is_connecting()).unwrap_or(false);
+                if started[cl as usize] && connecting {
+                    c.s.renet_disconnect(cl);
+                }
+            }
             _ => {}
         }
         // arbitrary interleaving of the peers' frames
@@ -383,6 +391,19 @@ fn history(family: &str, seed: u64, idx: usize, thorough: bool, out: &mut impl W
                     let k = c.rng.range(1, 4);
                     c.lockstep(k);
                 }
+                // a short-lived entity: one peer spawns and despawns it while the others stand still
+                if c.rng.chance(1, 5) {
+                    let p = c.any_peer();
+                    let h = c.fresh();
+                    c.s.spawn(p, h, true, &[], None);
+                    for _ in 0..c.rng.range(1, 2) {
+                        c.s.step(p);
+                    }
+                    c.s.despawn(p, h);
+                    for _ in 0..c.rng.range(1, 2) {
+                        c.s.step(p);
+                    }
+                }
                 // a client leaves the session in the middle of it
                 if c.nclients >= 2 && c.rng.chance(1, 12) {
                     let who = c.rng.range(1, c.nclients as usize) as u32;
@@ -489,6 +510,42 @@ fn history(family: &str, seed: u64, idx: usize, thorough: bool, out: &mut impl W
                 c.s.trace.push(json!({"ev":"drain","quiescent":d.0,"rounds":d.1}));
                 if !d.0 {
                     break;
+                }
+            }
+        }
+        "asset" => {
+            const AK: [AKind; 4] = [AKind::Mesh, AKind::Image, AKind::Audio, AKind::Material];
+            // (kind, uuid, last writer, settled: a quiescent drain happened since that writer's last publication)
+            let mut published: Vec<(AKind, uuid::Uuid, u32, bool)> = vec![];
+            for _ in 0..rounds {
+                let p = c.any_peer();
+                if published.is_empty() || c.rng.chance(1, 2) {
+                    let kind = *c.rng.pick(&AK);
+                    let id = uuid::Uuid::from_bytes(c.rng.bytes(16).try_into().unwrap());
+                    let n = c.rng.below(1000) as u64;
+                    c.s.asset_insert(p, kind, Some(id), n);
+                    published.push((kind, id, p, false));
+                } else {
+                    // overwrite under the same uuid: by the peer that wrote it last at any time, by any other
+                    // peer once the previous content has settled everywhere (one writer per epoch)
+                    let k = c.rng.below(published.len());
+                    let (kind, id, owner, settled) = published[k];
+                    let w = if settled && c.rng.chance(2, 3) { p } else { owner };
+                    let n = 1000 + c.rng.below(1000) as u64;
+                    c.s.trace.push(json!({"ev":"overwrite","peer":w,"prev":owner}));
+                    c.s.asset_insert(w, kind, Some(id), n);
+                    published[k] = (kind, id, w, false);
+                }
+                if c.rng.chance(1, 2) {
+                    c.random_steps();
+                } else {
+                    let d = c.drain(80);
+                    c.s.trace.push(json!({"ev":"drain","quiescent":d.0,"rounds":d.1}));
+                    if d.0 {
+                        for e in published.iter_mut() {
+                            e.3 = true;
+                        }
+                    }
                 }
             }
         }
